@@ -14,4 +14,8 @@ def stepS : Step → Sexp
 def writeFileOp (atomic : Bool) (base key : String) (n : Nat) : Sexp :=
   .list (.atom "steps" :: (writeFile atomic base key (List.replicate n "x")).map stepS)
 
+/-- `(fs.writeFileFailing #base #key nchunks k)` → the steps of `write_file` whose step `k` returns an error -/
+def writeFileFailingOp (base key : String) (n k : Nat) : Sexp :=
+  .list (.atom "steps" :: (writeFileFailing base key (List.replicate n "x") k).map stepS)
+
 end Iwe.FsOps
